@@ -44,7 +44,7 @@ def bad_operator(inputs, value):
 
 
 def run(ctx: Ctx):
-  for r in (r1, r2, r3, r4, r8, r9, r10, r13):
+  for r in (r1, r2, r3, r4, r8, r9, r10, r13, r15):
     ctx.guard(r)
   from mlmverif.props import c18, c19
   ctx.include('R-C08-5', '"leaves the caller\'s input objects untouched": the'
@@ -226,6 +226,35 @@ def r13(ctx: Ctx):
   ctx.floor(rule, 4, n)
 
 
+def r15(ctx: Ctx):
+  rule = 'R-C08-15'
+  ctx.rule(rule, '"select ... routes data exactly as a reference interpreter": the function an operator'
+           ' without fn runs (select, fn-less apply/assign) is the identity on its argument TUPLE:'
+           ' `_identity_fn(*x)` returns `x` itself on every path — no unwrapping of a single'
+           ' element, no conversion. _normalize_outputs treats any tuple a function returns as'
+           ' several outputs, so an unwrapped 1-tuple VALUE `(5,)` would be routed as `5`, `()` would'
+           ' raise, and a tuple-typed column would be split')
+  fi = ctx.repo.module('chainables.tree_fns').functions.get('_identity_fn')
+  if fi is None:
+    raise AnalysisError(f'{rule}: _identity_fn not found')
+  va = fi.node.args.vararg.arg if fi.node.args.vararg else None
+  rets = [x for x in walk_no_nested(fi.node) if isinstance(x, ast.Return)]
+  if va is None or not rets:
+    raise AnalysisError(f'{rule}: _identity_fn(*x) with a return expected')
+  bad = [r_ for r_ in rets if not (isinstance(r_.value, ast.Name) and r_.value.id == va)]
+  rebinds = [x for x in walk_no_nested(fi.node) if isinstance(x, (ast.Assign, ast.AugAssign)) and any(
+      isinstance(t, ast.Name) and t.id == va for t in (x.targets if isinstance(x, ast.Assign) else [x.target]))]
+  if bad or rebinds:
+    b = (bad or rebinds)[0]
+    ctx.fail(rule, fi, '_identity_fn returns its argument tuple unchanged',
+             f'`{unparse(b)[:60]}`: the fn-less operators no longer hand their selected inputs on as the tuple'
+             ' they were given — a single selected value that is itself a tuple is unwrapped and then'
+             ' re-interpreted as several outputs', node=b)
+  else:
+    ctx.ok(rule, fi, f'_identity_fn(*{va}) returns {va}', rets[0])
+  ctx.floor(rule, 1)
+
+
 
 def _c18_shared(sub):
   from mlmverif.props import c18
@@ -359,8 +388,23 @@ def r2(ctx: Ctx):
   ok = (inter and selfmix and len({id(r.ast) for r in raises}) >= 2
         and all(any(isinstance(s.ast, ast.Raise) for s, lab in c.succ if lab == 'true') for c in inter + selfmix))
   dflt = any(isinstance(x, ast.Assign) and 'self.output_keys' in unparse(x.value) for x in walk_no_nested(ck.node))
+  # ... for every call: no early return on the way to the two tests (a check that is
+  # skipped when nothing was assigned before misses SELF mixed with keys of the SAME call)
+  if ok:
+    for c_ in inter + selfmix:
+      w_ = g.must_pass(g.entry, [g.exit_ret], lambda nd, c_=c_: nd is c_, cfgm.only_normal)
+      if w_ is not None:
+        ok = False
+        ctx.fail(rule, ck, '_check_assign_keys: both tests run on every call',
+                 f'_check_assign_keys can return without evaluating `{c_.text()[:50]}` (path: '
+                 + ' -> '.join(x_.split(':', 2)[-1][:30] for x_ in w_[-4:]) + '): an invalid key combination inside'
+                 ' one assign()/aggregate() call — e.g. (\'a\', Key.SELF) as the first assignment — is accepted'
+                 ' at build time and silently replaces the record at run time', node=c_.ast)
+        break
   if ok and dflt:
     ctx.ok(rule, ck, '_check_assign_keys raises on duplicates and on SELF mixed with keys', ck.node)
+  elif not ok and any(f_.rule == rule and '_check_assign_keys: both tests' in f_.construct for f_ in ctx.findings):
+    pass
   else:
     ctx.fail(rule, ck, '_check_assign_keys: raise KeyError on duplicate keys / SELF mixed with keys',
              'invalid key combinations are no longer rejected at build time',
@@ -671,6 +715,12 @@ from mlmverif.selfcheck import B, OK  # noqa: E402
 _F = 'chainables/tree_fns.py'
 _T = 'chainables/transform.py'
 VARIANTS = [
+    B('identity-fn-unwraps-single-value', 'chainables/tree_fns.py',
+      'def _identity_fn(*x):\n  return x', 'def _identity_fn(*x):\n  return x[0] if len(x) == 1 else x', 'R-C08-15'),
+    B('assign-key-check-skipped-when-nothing-assigned', 'chainables/transform.py',
+      '    non_dict_keys, dict_keys = mit.partition(_is_dict, assign_keys)\n    new_keys = set(itertools.chain(non_dict_keys, *dict_keys))\n    if exisiting_keys is None:\n      exisiting_keys = self.output_keys',
+      '    if exisiting_keys is None:\n      exisiting_keys = self.output_keys\n    if not exisiting_keys:\n      return\n    non_dict_keys, dict_keys = mit.partition(_is_dict, assign_keys)\n    new_keys = set(itertools.chain(non_dict_keys, *dict_keys))',
+      'R-C08-2'),
     B('revert-sink-adds-no-tracked-key', 'chainables/transform.py',
       '      if isinstance(fn, tree_fns.Sink):\n        # A sink forwards the records unchanged, it adds no key.\n        continue\n',
       '', 'R-C08-13'),
